@@ -42,20 +42,28 @@ type H struct {
 	OutDir, ReplayTo string
 	NoTriage         bool // replay of a known-finding witness: report the raw verdict
 
-	mu        sync.Mutex
-	evals     int64
-	classes   map[string]int64
-	nt        map[uint64]struct{}
-	ntPlain   int64 // distinct by construction (exhaustive enumerators)
-	known     map[string]int64
-	samples   []sample
-	viol      []Violation
-	notes     []string
-	exhaust   bool
-	frozen    atomic.Bool
-	bestSize  int
-	bestCase  json.RawMessage
-	bestMsg   string
+	mu       sync.Mutex
+	evals    int64
+	classes  map[string]int64
+	nt       map[uint64]struct{}
+	ntPlain  int64 // distinct by construction (exhaustive enumerators)
+	known    map[string]int64
+	samples  []sample
+	viol     []Violation
+	notes    []string
+	exhaust  bool
+	frozen   atomic.Bool
+	bestSize int
+	bestCase json.RawMessage
+	bestMsg  string
+	// recent holds the JSON of the cases executed most recently in this
+	// process (rapid legs); bestCtx is its content at the moment bestCase was
+	// recorded.  It becomes the replay file's context when the failing case
+	// does not fail on its own (state carried over from earlier cases).
+	recent    [][]byte
+	bestCtx   [][]byte
+	ctxUsed   []json.RawMessage
+	ctxNote   string
 	flushed   bool
 	cur       []*curCase
 	watchStop chan struct{}
@@ -81,6 +89,11 @@ type ReplayFile struct {
 	Seed     uint64          `json:"seed,omitempty"`
 	Message  string          `json:"message,omitempty"`
 	Case     json.RawMessage `json:"case"`
+	// Context lists cases to execute (results ignored) before Case: the
+	// failure needs state that earlier cases of the same process left behind
+	// in the code under test (a pool, a cache, a package-level variable).
+	Context []json.RawMessage `json:"context,omitempty"`
+	Note    string            `json:"note,omitempty"`
 }
 
 func envInt(name string, def int) int {
@@ -299,7 +312,7 @@ func (h *H) MergeTally(t *Tally) {
 
 // Sample offers one case (any JSON-able value) as an evidence sample.
 func (h *H) Sample(c any, nt bool) {
-	js, err := json.Marshal(c)
+	js, err := Marshal(c)
 	if err != nil || len(js) > maxSampleBytes {
 		return
 	}
@@ -325,7 +338,7 @@ func (h *H) Count(class string, n int64) {
 // Fail records a violation for case c (smallest failing case wins) and
 // freezes the statistics.  It returns the replay path.
 func (h *H) Fail(c any, msg string) string {
-	js, err := json.Marshal(c)
+	js, err := Marshal(c)
 	if err != nil {
 		js = []byte(fmt.Sprintf("%q", fmt.Sprint(c)))
 	}
@@ -334,9 +347,26 @@ func (h *H) Fail(c any, msg string) string {
 	defer h.mu.Unlock()
 	if h.bestCase == nil || len(js) < h.bestSize {
 		h.bestCase, h.bestSize, h.bestMsg = js, len(js), msg
+		h.bestCtx = append([][]byte(nil), h.recent...)
 		h.writeReplayLocked()
 	}
 	return h.replayPath()
+}
+
+const recentKeep = 48
+
+// remember appends one executed case to the ring of recent cases.
+func (h *H) remember(js []byte) {
+	if len(js) > 1<<20 {
+		js = []byte("null")
+	}
+	h.mu.Lock()
+	if len(h.recent) >= recentKeep {
+		copy(h.recent, h.recent[1:])
+		h.recent = h.recent[:recentKeep-1]
+	}
+	h.recent = append(h.recent, append([]byte(nil), js...))
+	h.mu.Unlock()
 }
 
 func (h *H) replayPath() string {
@@ -344,7 +374,7 @@ func (h *H) replayPath() string {
 }
 
 func (h *H) writeReplayLocked() {
-	rf := ReplayFile{Property: h.Prop, Leg: h.Leg, Tier: h.Tier, Seed: h.Seed, Message: h.bestMsg, Case: h.bestCase}
+	rf := ReplayFile{Property: h.Prop, Leg: h.Leg, Tier: h.Tier, Seed: h.Seed, Message: h.bestMsg, Case: h.bestCase, Context: h.ctxUsed, Note: h.ctxNote}
 	b, _ := json.MarshalIndent(rf, "", " ")
 	os.MkdirAll(h.ReplayTo, 0o755)
 	os.WriteFile(h.replayPath(), append(b, '\n'), 0o644)
@@ -539,7 +569,7 @@ func Register[C any](prop, leg string, run RunFunc[C]) {
 	defer regMu.Unlock()
 	reg[prop+"/"+leg] = legEntry{replay: func(raw json.RawMessage, noTriage bool) (string, error) {
 		var c C
-		if err := json.Unmarshal(raw, &c); err != nil {
+		if err := Unmarshal(raw, &c); err != nil {
 			return "", err
 		}
 		o := &Obs{NoTriage: noTriage}
@@ -551,6 +581,11 @@ func Register[C any](prop, leg string, run RunFunc[C]) {
 // -rapid.checks, the seed from -rapid.seed (both set by the driver).
 func Rapid[C any](h *H, t *testing.T, gen func(*rapid.T) C, run RunFunc[C]) {
 	slot := h.Slot()
+	defer func() {
+		if h.Failed() {
+			confirmReplay(h, run)
+		}
+	}()
 	rapid.Check(t, func(rt *rapid.T) {
 		c := gen(rt)
 		o := &Obs{}
@@ -559,15 +594,66 @@ func Rapid[C any](h *H, t *testing.T, gen func(*rapid.T) C, run RunFunc[C]) {
 		msg := Guard(func() string { return run(c, o) })
 		h.noteCaseTime(time.Since(t0))
 		slot.Leave()
+		js, _ := Marshal(c)
 		if msg != "" {
 			p := h.Fail(c, msg)
+			h.remember(js)
 			rt.Fatalf("VK-VIOLATION property=%s leg=%s replay=%s\n%s", h.Prop, h.Leg, p, msg)
 		}
+		h.remember(js)
 		if !h.frozen.Load() {
-			js, _ := json.Marshal(c)
 			h.record(js, o)
 		}
 	})
+}
+
+// confirmReplay checks, in this process, that the recorded failing case fails
+// when it is decoded from its JSON and run on its own, the way the replay
+// entry will run it.  If it does not (the failure needed state that earlier
+// cases left behind in the code under test), the cases executed before it are
+// added to the replay file as context, provided that makes it fail again.
+func confirmReplay[C any](h *H, run RunFunc[C]) {
+	h.mu.Lock()
+	best, ctx := h.bestCase, h.bestCtx
+	h.mu.Unlock()
+	if best == nil {
+		return
+	}
+	exec := func(raw []byte) string {
+		var c C
+		if Unmarshal(raw, &c) != nil {
+			return ""
+		}
+		done := make(chan string, 1)
+		go func() { done <- Guard(func() string { return run(c, &Obs{}) }) }()
+		select {
+		case m := <-done:
+			return m
+		case <-time.After(2 * hangWall):
+			return "operation did not return"
+		}
+	}
+	settle := func() { runtime.GC(); runtime.GC() } // empties sync.Pools
+	settle()
+	if exec(best) != "" {
+		return // fails on its own
+	}
+	settle()
+	for _, raw := range ctx {
+		exec(raw)
+	}
+	again := exec(best)
+	h.mu.Lock()
+	defer h.mu.Unlock()
+	if again != "" {
+		for _, raw := range ctx {
+			h.ctxUsed = append(h.ctxUsed, json.RawMessage(raw))
+		}
+		h.ctxNote = "the case fails only after the context cases have run in the same process (state left behind in the code under test)"
+	} else {
+		h.ctxNote = "the case failed during the run but neither alone nor after the preceding cases when tried again in the same process: it depends on state this file does not capture"
+	}
+	h.writeReplayLocked()
 }
 
 // One runs a single non-rapid case (exhaustive enumerators with few, large
@@ -581,7 +667,7 @@ func One[C any](h *H, slot *curCase, c C, run RunFunc[C]) (msg string) {
 		h.Fail(c, msg)
 		return msg
 	}
-	js, _ := json.Marshal(c)
+	js, _ := Marshal(c)
 	h.record(js, o)
 	return ""
 }
@@ -649,6 +735,9 @@ func ReplayMain(t *testing.T) {
 	var rerr error
 	go func() {
 		defer close(done)
+		for _, raw := range rf.Context {
+			e.replay(raw, true) // context: results ignored
+		}
 		msg, rerr = e.replay(rf.Case, os.Getenv("VK_NOTRIAGE") == "1")
 	}()
 	c0 := cpuTime()
@@ -698,7 +787,7 @@ func FuzzCheck[C any](t *testing.T, prop, leg string, c C, run RunFunc[C]) {
 	if msg == "" {
 		return
 	}
-	js, _ := json.Marshal(c)
+	js, _ := Marshal(c)
 	dir := os.Getenv("VK_REPLAYDIR")
 	if dir == "" {
 		dir = os.TempDir()
